@@ -9,8 +9,39 @@ RULE = ('sessions of the real server with 4 scripted conforming clients; scenari
         'lists of length 1-3 in every passed-out/played pattern, (thorough) every complete auction of <= 6 calls over '
         '{Pass,X,XX,1C,1H,2C,7NT}; schedules: default + priority schedules, and all schedules with <= d deviations on the '
         'schedule scenarios; oracle: parsed log == records computed by the reference table manager (auction, play, score '
-        'reference models), and identical log bytes across all schedules of a scenario')
+        'reference models), and identical log bytes across all schedules of a scenario; sessions of four turned boards (same contract and '
+        'tricks, every declarer); the scoring step over 35 bids x 3 doublings x 4 vulnerabilities x 4 declarers x 14 trick counts in 3 orders')
 ASSUME = ['reference models mc/ref/{auction,play,score,protocol}.py', 'virtual primitives conform to CPython (setup conformance suite)']
+
+
+def score_orders(seed) -> Counter:
+    """The scoring step of the per-board loop on its own: every final contract (35 bids x undoubled/doubled/redoubled x 4 table
+    vulnerabilities x 4 declarers) x every trick count 0..13, asked in two enumeration orders in ONE process (declarer outermost, then
+    declarer innermost), each answer compared with the reference scorer: the score of a board must not depend on which boards were
+    scored before it."""
+    from bridge_env import Bid, Contract, Player, Vul
+    from bridge_env.score import calc_score
+    from ..ref import score as RS
+    c = Counter()
+    vuls = {'None': Vul.NONE, 'NS': Vul.NS, 'EW': Vul.EW, 'Both': Vul.BOTH}
+    bids = [b for b in Bid if b.level is not None]
+    dims = dict(decl=list('NESW'), vul=list(vuls), bid=bids, dbl=[0, 1, 2], tricks=list(range(14)))
+    for order in (('decl', 'vul', 'bid', 'dbl', 'tricks'), ('tricks', 'bid', 'dbl', 'vul', 'decl'), ('vul', 'dbl', 'tricks', 'decl', 'bid')):
+        import itertools
+        for combo in itertools.product(*(dims[k] for k in order)):
+            v = dict(zip(order, combo))
+            b = v['bid']
+            con = Contract(b, x=v['dbl'] == 1, xx=v['dbl'] == 2, vul=vuls[v['vul']], declarer=Player[v['decl']])
+            c.inc('score_calls')
+            got = calc_score(con, v['tricks'])
+            want = RS.duplicate_score(b.level, b.suit.name if b.suit.name != 'NT' else 'NT', v['dbl'], RS.side_vulnerable(v['vul'], v['decl']), v['tricks'])
+            if got != want:
+                c.violate('C08:score-order', f"calc_score({b.name}{'x' * v['dbl']} by {v['decl']}, table vulnerability {v['vul']}, {v['tricks']} tricks) = {got} "
+                            f"when asked in the order {'/'.join(order)} of one process, the rules give {want}",
+                            {'kind': 'score-order', 'order': list(order), 'bid': b.name, 'dbl': v['dbl'], 'vul': v['vul'], 'decl': v['decl'], 'tricks': v['tricks']})
+                if c.enough():
+                    return c
+    return c
 
 
 def run_tag(tag, tier, seed, workers):
@@ -31,6 +62,7 @@ def run_tag(tag, tier, seed, workers):
             c.n.pop('scenarios', None)
         cs += ncs
         nb = len(net_items)
+        cs.append(score_orders(seed))
     res = sessions.finish(tag, its, cs, RULE if tag == 'C08' else None, ASSUME)
     if nb:
         res.coverage['sessions_with_bundled_clients'] = nb
@@ -42,4 +74,8 @@ def run(tier, seed, workers):
     return run_tag(TAG, tier, seed, workers)
 
 
-replay = sessions.replay
+def replay(d: dict):
+    if d.get('kind') == 'score-order':
+        c = score_orders(0)      # the answer depends on what was asked before: replay the whole enumeration
+        return bool(c.violations), '\n'.join(f'{v.key}: {v.message}' for v in c.violations[:5])
+    return sessions.replay(d)
